@@ -77,6 +77,12 @@ CHECKS["C17"] = dict(engine="tlc+confdrive",
    text="TLC checks on every abstract document up to the bound (incl. ill-nested and hostile ones) that the reference tree holds exactly the written keys (later duplicate wins, re-opened domains merge, comments/blank lines ignored) and that typed getters are total; it then enumerates documents (well-nested, unclosed, one mismatched close, one XML-hostile line) as implementation tests; the driver renders them with whitespace/comment/CRLF variants, parses them with InitFromString/InitFromBytes/NewConf and queries every getter on every path; the oracle requires: well-formed -> ok and equal to the reference; hostile/unclosed -> error or complete; never a panic (20k-200k arbitrary byte strings).",
    design_ref="5/C17", note="Trusted: Conf.tla as the meaning of the format (statement's rules); where the statement is silent (key-only lines as keys, '0'/'1' booleans, sibling key/domain of one name) differences are observations.")
 
+CHECKS["C11"] = dict(engine="tlc+vdrive",
+   technique="TLA+ spec ClientConn.tla (shared connection state, per-connection sender/receiver goroutines, Go channel hand-off) model-checked by TLC for NoWriteOnKnownDead / HealthyNotMarkedClosed / NoStranding; trace validation (Trace_ClientConn) of a real transport.TarsClient against a closing server with seeded delays injected at hook points",
+   category="model_checking",
+   text="TLC explores every interleaving of callers, senders, receivers, the 1 s ticker and idle closes by the server for 3 connections x 2 (thorough: 3) requests: the repaired design satisfies the three properties, the original design violates each of them (checked on every run as a vacuity guard). Real client runs (2-4 calls, server closes the connection in use between calls, next call 0 ms - 1.1 s later, 1-12 ms delays injected at one or two of nine hook points to force rare interleavings) are recorded through hooks taken under the connection lock where the code decides (dial, close, liveness check) and validated step by step; a call issued after the client saw the close must succeed.",
+   design_ref="5/C11", note="Trusted: hook placement (decision points under connLock), the Go runtime's FIFO hand-off as modelled. Calls that race with a close are exempt as in the statement. The close-notification (push) path of the adapter is not driven.")
+
 PENDING = {}
 
 def main():
